@@ -121,24 +121,57 @@ def rbf_cases(ck, rng):
         ck.violation("antisym-evaluator:%s" % type(ex).__name__, {"msg": str(ex)[:200]})
 
 
-def additive_case(ck, rng, model_terms, ns, na, order, kind, densities):
-    """map an additive kernel (optionally times a subset RBF) to splines and compare on the bounded domain"""
-    N1 = ns + na
+BOUNDS = {0: (0.0, 1.0), 1: (-1.0, 1.0), 2: (-0.5, 1.5)}
+
+
+def feature_list_of_kinds(n):
+    """feature f has bound class f % 3 (MapTerms!BoundKind): UMap (0,1), SignedUMap (-1,1), VMap scaled to (-1/2,3/2)"""
+    from ciderpress.dft.transform_data import SignedUMap, VMap
+    mk = {0: lambda f: UMap(f, 0.5), 1: lambda f: SignedUMap(f, 0.5), 2: lambda f: VMap(f, 0.5, scale=2.0, center=0.5)}
+    fl = FeatureList([mk[f % 3](f) for f in range(n)])
+    for f in range(n):
+        b = fl[f].bounds
+        if (float(b[0]), float(b[1])) != BOUNDS[f % 3]:
+            raise MachineryError("feature map bounds changed: %r" % (b,))
+    return fl
+
+
+def sample_in_bounds(rng, n, nfeat, margin):
+    lo = np.array([BOUNDS[f % 3][0] for f in range(nfeat)])
+    hi = np.array([BOUNDS[f % 3][1] for f in range(nfeat)])
+    return lo + (hi - lo) * rng.uniform(margin, 1 - margin, size=(n, nfeat))
+
+
+def additive_case(ck, rng, model_terms, ns, na, order, kind, densities, layout="front"):
+    """map an additive kernel (optionally times a subset RBF) to splines and compare on the bounded domain.
+    layout: where the single / additive dimensions sit in the feature vector (MapTerms!Inds); features have
+    heterogeneous bounds (MapTerms!BoundKind)"""
+    exp_terms, exp_scidx, exp_gterms, exp_kinds = model_terms[(ns, na, order, layout)]
+    inds = {"front": list(range(ns + na)),
+            "back": [na + c for c in range(ns)] + list(range(na)),
+            "gap": [c + 1 for c in range(ns)] + [ns + 2 + c for c in range(na)]}[layout]
+    N1 = ns + na + (2 if layout == "gap" else 0)
     nctrl = 7
-    fl = FeatureList([UMap(i, 0.5) for i in range(N1)])        # bounds (0, 1) for every transformed feature
-    Xc = rng.uniform(0.05, 0.95, size=(nctrl, N1))
+    fl = feature_list_of_kinds(N1)
+    Xc = sample_in_bounds(rng, nctrl, N1, 0.05)
     alpha = rng.normal(size=nctrl)
-    ls = rng.uniform(0.5, 1.2, size=N1)
+    ls_cols = rng.uniform(0.5, 1.2, size=ns + na)          # per mapped column (singles, then additive)
     base_scale = list(rng.uniform(0.3, 1.5, size=order + 1))
-    sinds, ainds = slice(0, ns), slice(ns, N1)
+    sinds, ainds = inds[:ns], inds[ns:]
+    as_index = lambda ix: slice(ix[0], ix[-1] + 1) if ix == list(range(ix[0], ix[-1] + 1)) and layout == "front" else list(ix)
     if kind == "arbf":
-        kern = quiet(get_agpr_kernel, sinds, ainds, ls, scale=base_scale, order=order, nsingle=ns)
+        if layout == "front":
+            kern = quiet(get_agpr_kernel, slice(0, ns), slice(ns, ns + na), ls_cols, scale=base_scale, order=order, nsingle=ns)
+        else:
+            arbf = K.SubsetARBF(as_index(ainds), order=order, length_scale=ls_cols[ns:], scale=base_scale,
+                                length_scale_bounds="fixed", scale_bounds="fixed")
+            kern = arbf if ns == 0 else K.DiffProduct(K.SubsetRBF(as_index(sinds), length_scale=ls_cols[:ns], length_scale_bounds="fixed"), arbf)
     else:
         cls = {"rq": K.SubsetAddRQ, "llrbf": K.SubsetAddLLRBF}[kind]
-        kern = cls(ainds, order=order, alpha=1.7, length_scale=ls[ainds], scale=base_scale, length_scale_bounds="fixed", scale_bounds="fixed")
-    X = rng.uniform(0.02, 0.98, size=(40, N1))
+        kern = cls(as_index(ainds), order=order, alpha=1.7, length_scale=ls_cols[ns:], scale=base_scale, length_scale_bounds="fixed", scale_bounds="fixed")
+    X = sample_in_bounds(rng, 40, N1, 0.02)
     ref, dref = py_sum(kern, X, Xc, alpha)
-    tag = "%s:ns=%d:na=%d:order=%d" % (kind, ns, na, order)
+    tag = "%s:ns=%d:na=%d:order=%d:%s" % (kind, ns, na, order, layout)
     errs = []
     for dens in densities:
         ck.count(key=(tag, dens))
@@ -152,9 +185,9 @@ def additive_case(ck, rng, model_terms, ns, na, order, kind, densities):
         else:
             scale, ind_sets, grids, coefs = out
             const = 0
-        # ---- T: term order and scale order against the model
-        exp_terms, exp_scidx = model_terms[(ns, na, order)]
-        exp_pairs = [(t, base_scale[si]) for t, si in zip(exp_terms, exp_scidx) if len(t) > 0]
+        # ---- T: term order, scale order, FEATURE indices and axis domains against the model
+        keep = [k for k, t in enumerate(exp_terms) if len(t) > 0]
+        exp_pairs = [(list(exp_gterms[k]), base_scale[exp_scidx[k]]) for k in keep]
         got_pairs = [([int(i) for i in s_], float(sc)) for s_, sc in zip(ind_sets, scale)]
         if len(scale) != len(ind_sets):
             ck.violation("map-additive:%s:scale-and-term-lists-differ-in-length" % tag, {"nscale": len(scale), "nterms": len(ind_sets)})
@@ -164,6 +197,11 @@ def additive_case(ck, rng, model_terms, ns, na, order, kind, densities):
             return
         if any(abs(a[1] - b[1]) > 1e-14 for a, b in zip(got_pairs, exp_pairs)):
             ck.violation("map-additive:%s:scale-order" % tag, {"impl": [p[1] for p in got_pairs], "spec": [p[1] for p in exp_pairs]})
+            return
+        got_dom = [[(float(ax[0]), float(ax[1])) for ax in g] for g in grids]
+        exp_dom = [[BOUNDS[kd] for kd in exp_kinds[k]] for k in keep]
+        if got_dom != exp_dom:
+            ck.violation("map-additive:%s:axis-domain-not-the-bounds-of-its-feature" % tag, {"impl": got_dom[:4], "spec": exp_dom[:4], "terms": [p[0] for p in got_pairs][:4]})
             return
         if ns == 0 and abs(const - base_scale[0] * alpha.sum()) > 1e-13 * (1 + abs(const)):
             ck.violation("map-additive:%s:constant-term" % tag, {"const": float(const), "expected": float(base_scale[0] * alpha.sum())})
@@ -178,21 +216,26 @@ def additive_case(ck, rng, model_terms, ns, na, order, kind, densities):
 
 
 def simple_and_linear(ck, rng):
-    N1 = 3
+    N1 = 4
     nctrl = 8
-    fl = FeatureList([UMap(i, 0.5) for i in range(N1)])
-    Xc = rng.uniform(0.05, 0.95, size=(nctrl, N1))
+    fl = feature_list_of_kinds(N1)          # heterogeneous bounds: (0,1), (-1,1), (-1/2,3/2), (0,1)
+    Xc = sample_in_bounds(rng, nctrl, N1, 0.05)
     alpha = rng.normal(size=nctrl)
-    ls = np.array([0.5, 0.8, 0.6])
-    X = rng.uniform(0.02, 0.98, size=(30, N1))
-    for idx_name, idx in (("full", slice(0, 3)), ("proper", slice(1, 3))):
+    ls = np.array([0.5, 0.8, 0.6, 0.7])
+    X = sample_in_bounds(rng, 30, N1, 0.02)
+    for idx_name, idx, cols in (("full", slice(0, 4), [0, 1, 2, 3]), ("proper", slice(1, 3), [1, 2]), ("tail", slice(2, 4), [2, 3])):
         kern = quiet(get_rbf_kernel, idx, ls, scale=0.7)
         ref = kern(X, Xc).dot(alpha)
         errs = []
-        for dens in (8, 16, 32):
+        for dens in ((8, 16) if idx_name == "full" else (8, 16, 32)):
             ck.count(key=("simple", idx_name, dens))
             try:
                 scale, ind_sets, grids, coefs = quiet(map_tools.get_mapped_gp_evaluator_simple, kern, Xc, alpha, fl, rbf_density=dens, max_ngrid=400)
+                got_dom = [(float(ax[0]), float(ax[1])) for ax in grids[0]]
+                if [int(i) for i in ind_sets[0]] != cols or got_dom != [BOUNDS[c % 3] for c in cols]:
+                    ck.violation("map-simple:%s:axis-domain-not-the-bounds-of-its-feature" % idx_name,
+                                 {"ind_set": [int(i) for i in ind_sets[0]], "impl": got_dom, "spec": [BOUNDS[c % 3] for c in cols]})
+                    break
                 f, _ = SplineSetEvaluator(scale, ind_sets, grids, coefs)(X.copy())
             except Exception as ex:
                 ck.violation("map-simple:%s:%s" % (idx_name, type(ex).__name__), {"msg": str(ex)[:200]})
@@ -247,8 +290,8 @@ def main():
     for v in r.violated:
         ck.violation("model:MapTerms:" + v, {})
     model_terms = {}
-    for cfg, terms, scales in tlc_printed_values(r.out, "TERMS"):
-        model_terms[tuple(cfg)] = (terms, scales)
+    for cfg, terms, scales, gterms, kinds in tlc_printed_values(r.out, "TERMS"):
+        model_terms[tuple(cfg)] = (terms, scales, gterms, kinds)
     if len(model_terms) < 20:
         raise MachineryError("MapTerms emitted %d configurations" % len(model_terms))
     rbf_cases(ck, rng)
@@ -266,10 +309,18 @@ def main():
         cases = [c for c in cases if c[1] <= 3]
     for ns, na, order, kind in cases:
         additive_case(ck, rng, model_terms, ns, na, order, kind, dens)
+    # index layouts other than the identity (additive block first, unused features in between)
+    lay_cases = [(1, 2, 1, "arbf", "back"), (1, 3, 2, "arbf", "back"), (2, 2, 2, "arbf", "back"), (0, 2, 2, "arbf", "gap"), (1, 2, 2, "arbf", "gap"),
+                 (0, 2, 1, "rq", "gap"), (0, 3, 2, "llrbf", "gap")]
+    if not quick:
+        lay_cases += [(ns, na, order, "arbf", lay) for ns in (0, 1, 2) for na in (2, 3) for order in (1, 2) for lay in ("back", "gap")
+                      if not (lay == "back" and ns == 0) and ns + order <= 3]
+    for ns, na, order, kind, lay in lay_cases:
+        additive_case(ck, rng, model_terms, ns, na, order, kind, (8, 16, 32) if ns + order <= 3 else (8, 16), layout=lay)
     simple_and_linear(ck, rng)
     k0_factor(ck, rng)
     ck.traces = len(cases)
-    ck.sample({"case(ns,na,order,kind)": cases[3], "model_terms": model_terms[(cases[3][0], cases[3][1], cases[3][2])][0]})
+    ck.sample({"case(ns,na,order,kind)": cases[3], "model_terms": model_terms[(cases[3][0], cases[3][1], cases[3][2], "front")][0]})
     ck.assumptions = ["spline error judged on points inside the transformed-feature bounds (0,1) as a ladder: finest density error <= 2e-3 "
                       "(value) / 2e-2 (gradient) relative and not above the coarsest", "NNEvaluator / torch not present"]
     return ck.finish()
